@@ -3,11 +3,15 @@ from .. import common as C
 
 ID = "C16"
 SRC_FACTS = ["src_temp_dir", "src_temp_pattern", "src_remove_on_write_fail", "src_close_checked", "src_rollback",
-             "src_unknown_path", "src_defer_cleanup"]
+             "src_unknown_path", "src_defer_cleanup", "src_prepare_no_late_error"]
 RULE = ("exhaustive: environments with 0..4 file entries (secret/plain patterns) x {no fault, every single fault: "
         "CreateTemp #0..n, Write #0..n, Close #0..n, Remove #0..n, Run #0 (= cannot start)} x child {exit 0, exit 1} x "
         "{keeps, unlinks its files}; LookPath failure / open error / diagnostics for every n; all pairs of faults for "
-        "n <= 2 (thorough: n <= 4); PrepareEnvironment directly with every single fault and pretend on/off; random "
+        "n <= 2 (thorough: n <= 4); PrepareEnvironment directly with every single fault and pretend on/off; "
+        "overlap family: 1..3 files x every non-empty set of keys ALSO defined under environmentVariables (secret/plain "
+        "on both sides, scalar and non-scalar variable) x {no fault, Write #last, Remove #0, Run #0} x exit 0/1, and the "
+        "same through PrepareEnvironment; odd-shape family: empty key, key equal to a base-environment name, keys with "
+        "spaces / non-ASCII / 300 bytes, non-scalar members between scalar ones, NUL and newline in values, 8 entries; random "
         "stream (scalar kinds, binary and empty contents, 1-4 faults, extra pre-existing files, base environment). "
         "non-trivial = at least one file is materialised; distinct by case content")
 ASSUMPTIONS = [
@@ -70,6 +74,61 @@ def single_faults(n):
     return fs
 
 
+def overlap_family():
+    out = []
+    for n in range(1, 4):
+        for mask in range(1, 1 << n):
+            over = [KEYS[i] for i in range(n) if mask >> i & 1]
+            for pattern in (0, 2):
+                for vsecret in (False, True):
+                    for vt in ("s", "o"):
+                        if vt == "o" and (pattern == 2 or vsecret):
+                            continue
+                        vs = [E("PLAIN", "v")] + [E(k, "from-vars-" + k, vt, vsecret) for k in over]
+                        plans = [[], [["write", n - 1]], [["remove", 0]], [["run", 0]]]
+                        for faults in plans:
+                            for exit_ok in ((True, False) if not faults else (True,)):
+                                out.append(base_case(n, pattern, vars=vs, faults=faults, exit=exit_ok))
+                        if vt == "s":
+                            for pretend in (False, True):
+                                out.append(base_case(n, pattern, op="prepare", vars=vs, pretend=pretend))
+    # every key overlaps, nothing else is defined
+    out.append(base_case(2, 2, vars=[E(KEYS[0], "a", "s", True), E(KEYS[1], "b")], base=[]))
+    return out
+
+
+def odd_family():
+    out = []
+    long_key = "K" * 300
+    shapes = [
+        [E("", "empty-key", "s", True)],
+        [E("", "empty-key"), E("A", "a", "s", True)],
+        [E("PATH", "shadows-base", "s", True)],
+        [E("HOME", "x"), E("PATH", "y", "s", True)],
+        [E("with space", "v", "s", True), E("tab\tkey", "w")],
+        [E("sch\u00fcssel", "v", "s", True), E("\u9375", "w", "s", True)],
+        [E(long_key, "v", "s", True)],
+        [E("A", "a", "s", True), E("B", "inner", "o", True), E("C", "c")],
+        [E("A", "inner", "a"), E("B", "b", "s", True), E("C", "inner", "o")],
+        [E("A", "inner", "o", True)],
+        [E("A", b"nul\x00inside", "s", True), E("B", b"line1\nline2\n"), E("C", b"\xff\xfe", "s", True)],
+        [E("A", "true", "b", True), E("B", "12.50", "n", True), E("C", "", "z", True)],
+        [E("K%d" % i, "value-%d" % i, "s", i % 3 == 0) for i in range(8)],
+    ]
+    for files in shapes:
+        n = len(files)
+        for vs in ([], [E("PLAIN", "v"), E("TOKEN", "s3cr3t", "s", True)], [E(bytes.fromhex(files[0]["k"]), "dup", "s", True)]):
+            for faults in ([], [["write", n - 1]], [["remove", 0]], [["run", 0]], [["close", 0]]):
+                for exit_ok in ((True, False) if not faults else (True,)):
+                    c = base_case(0, 0, vars=vs, faults=faults, exit=exit_ok)
+                    c["files"] = files
+                    out.append(c)
+        c = base_case(0, 0, op="prepare")
+        c["files"] = files
+        out.append(c)
+    return out
+
+
 def gen(rng, tier):
     thorough = tier == "thorough"
     cases = []
@@ -77,6 +136,7 @@ def gen(rng, tier):
     cases.append(base_case(1, faults=[["close", 0]]))                    # C16-close witness
     cases.append(base_case(2, faults=[["create", 1], ["remove", 0]]))    # allowed leak (own Remove failed)
     cases.append(base_case(2, faults=[["write", 1]]))
+    cases.append(base_case(2, 0, vars=[E("PLAIN", "v"), E(KEYS[1], "also-a-variable", "s", True)]))   # C16-d shape
     # exhaustive single faults
     for n in range(0, 5):
         for pattern in (0, 1):
@@ -92,6 +152,10 @@ def gen(rng, tier):
             cases.append(base_case(n, 2, faults=faults, open="diags"))
             for pretend in (False, True):
                 cases.append(base_case(n, 0, op="prepare", faults=faults, pretend=pretend))
+    # keys defined under BOTH environmentVariables and files (no fault is needed for these to matter), and other
+    # shapes a late validation could object to after the files exist
+    for c in overlap_family() + odd_family():
+        cases.append(c)
     # pairs of faults
     for n in range(0, 5 if thorough else 3):
         singles = [f[0] for f in single_faults(n) if f]
@@ -124,7 +188,10 @@ def gen(rng, tier):
             files.append(E(k, v, t, rng.chance(1, 2)))
         nv = rng.below(4)
         vs = []
-        for k in rng.shuffle(["V1", "v2", "PATHX", "creds"])[:nv]:
+        vkeys = rng.shuffle(["V1", "v2", "PATHX", "creds"])[:nv]
+        if ks and rng.chance(1, 3):
+            vkeys = vkeys + rng.shuffle(ks)[:1 + rng.below(len(ks))]
+        for k in vkeys:
             val = rng.choice([b"1", b"a=b", b"home/.pulumi/.esc/credentials.json", b"", b"temp/esc-temp-0", b"work/data"])
             vs.append(E(k, val, rng.choice(["s", "s", "n", "o"]) if val == b"1" else "s", rng.chance(1, 3)))
         faults = []
